@@ -64,3 +64,12 @@ func TestFindLiarWitnesses(t *testing.T) {
 		}
 	}
 }
+
+func TestFindLiarNameBudgetWrap(t *testing.T) {
+	b, _ := hex.DecodeString("0061736d010000000009046e616d65070e6fa2020b01024d6d036d656d0200010b11020041000b0361626300c48080140b01640008046e616d65020100")
+	l, ok := FindLiar(b)
+	t.Logf("%+v %v", l, ok)
+	if !ok || l.Class != "name-len" {
+		t.Errorf("got %+v", l)
+	}
+}
